@@ -133,6 +133,14 @@ RECURSIVE RefRun(_, _, _)
 RefRun(s, bytes, trailing) ==
   IF bytes = <<>> THEN s ELSE RefRun(RefStep(s, Head(bytes), trailing), Tail(bytes), trailing)
 
+\* insignificant whitespace: a blank byte outside a string
+RECURSIVE HasOuterWs(_, _)
+HasOuterWs(s, bytes) ==
+  IF bytes = <<>> THEN FALSE
+  ELSE LET inStr == s.st \in {"str", "kstr", "strE", "kstrE", "strU4", "kstrU4", "strU3", "kstrU3", "strU2", "kstrU2", "strU1", "kstrU1",
+                               "strC1", "kstrC1", "strC2", "kstrC2", "strC3", "kstrC3"} IN
+       (IsWs(Head(bytes)) /\ ~inStr) \/ HasOuterWs(RefStep(s, Head(bytes), FALSE), Tail(bytes))
+
 \* offset (0-based) of the first byte that cannot continue the text, or -1 (as Len) if none
 RECURSIVE FirstDead(_, _, _, _)
 FirstDead(s, bytes, trailing, i) ==
